@@ -27,6 +27,14 @@ How the two anchored functions are read (robust to behaviour-preserving refactor
    not use_sympy` with one and the same fully quoted text in the test and in literal_eval.  A csv delimiter may be a
    module-level string constant bound once.
 
+4. load_subs, exception structure of the per-row conversion (`loadSubsRows : RowConversion`): the row loop body may wrap the
+   per-cell loop in `try: ... except TimeoutException:` and / or `with time_limit(<seconds>):` (either order); names bound in
+   the row loop BEFORE them to the row itself are aliases, to `list(row)` / `row[:]` / `row.copy()` / `copy.copy(row)` /
+   `copy.deepcopy(row)` / `[x for x in row]` snapshots (a snapshot written inside the per-cell loop is an error); the handler
+   may print and must put the row back with one `B[i] = name` or `row[:] = name` (a copy of an alias is an alias);
+   `restoresFrom` = none (no handler) | snapshot | alias.  `inPlace` lists every write to the cell in source order
+   (`_CellEval.writes`).  Trailing parameters of load_subs beyond the four known ones need constant defaults.
+
 Fail closed: any unrecognised statement shape raises ExtractError.
 """
 import ast
@@ -445,6 +453,7 @@ class _CellEval(object):
         self.cell = ("str", ())
         self.use_sympy = use_sympy
         self.locs = locs_names
+        self.writes = []          # every IN-PLACE write to the cell (shared by forks): (value kind, #replaces so far, line)
 
     def err(self, node, msg):
         raise ExtractError("load_subs: %s (line %d)" % (msg, getattr(node, "lineno", 0)))
@@ -504,6 +513,7 @@ class _CellEval(object):
         c = _CellEval(self.is_cellref, None, self.use_sympy, self.locs)
         c.env = dict(self.env)
         c.cell = self.cell
+        c.writes = self.writes
         return c
 
     def run(self, stmts):
@@ -515,6 +525,7 @@ class _CellEval(object):
                 val = self.ev(st.value)
                 if self.is_cellref(t):
                     self.cell = val
+                    self.writes.append((val[0], len(val[1]) if val[0] == "str" else None, st.lineno))
                 elif isinstance(t, ast.Name):
                     self.env[t.id] = val
                 else:
@@ -561,9 +572,12 @@ class _CellEval(object):
 def _load_subs(tree):
     fn0 = extract.find_def(tree, "load_subs")
     a = fn0.args
-    if [x.arg for x in a.args] != ["fname", "max_param", "use_sympy", "bcast_res"] or a.vararg or a.kwarg or a.kwonlyargs \
-            or [N.u(d) for d in a.defaults] != ["True", "True"]:
-        raise ExtractError("load_subs: signature is not (fname, max_param, use_sympy=True, bcast_res=True)")
+    # further trailing parameters are read only if they have a constant default (callers keep calling with the four known ones)
+    extra = a.args[4:]
+    if [x.arg for x in a.args[:4]] != ["fname", "max_param", "use_sympy", "bcast_res"] or a.vararg or a.kwarg or a.kwonlyargs \
+            or len(a.defaults) != 2 + len(extra) or [N.u(d) for d in a.defaults[:2]] != ["True", "True"] \
+            or not all(isinstance(d, ast.Constant) for d in a.defaults[2:]):
+        raise ExtractError("load_subs: signature is not (fname, max_param, use_sympy=True, bcast_res=True[, name=<constant>...])")
     fn = N.normalise_function(fn0, tree)
     W = "load_subs"
     # rank 0 reads every row, splits the row indices into `size` blocks, scatters; ...; gather, chain, bcast
@@ -625,13 +639,44 @@ def _load_subs(tree):
                 return True
         return is_row(t)               # a csv row is a list: truthiness == non-emptiness
 
+    def copy_of_row(e):
+        """a fresh list holding the row's items: list(r), r[:], r.copy(), copy.copy(r), copy.deepcopy(r), [x for x in r]"""
+        for src in ("list(MX_r)", "MX_r[:]", "MX_r.copy()", "copy.copy(MX_r)", "copy.deepcopy(MX_r)", "[MV_x for MV_x in MX_r]"):
+            bb = N.unify(src, e)
+            if bb is not None and is_row(bb["MX_r"][1]):
+                return True
+        return False
+
     inner = None
+    saves = {}          # name -> ("alias" | "snapshot", line): what a handler could restore the row from
+    time_limited = None
+    handler = None
     todo = list(outer.body)
     while todo:
         st = todo.pop(0)
         bb = N.unify("MV_alias = MX_r", st)
         if bb is not None and is_row(bb["MX_r"][1]) and inner is None:
             rowrefs.add(bb["MV_alias"])
+            saves[bb["MV_alias"]] = ("alias", st.lineno)
+            continue
+        if bb is not None and copy_of_row(bb["MX_r"][1]) and inner is None and time_limited is None and handler is None:
+            # taken before the time-limited region is entered, i.e. before the first in-place write
+            saves[bb["MV_alias"]] = ("snapshot", st.lineno)
+            continue
+        if isinstance(st, ast.Try) and inner is None and not todo and handler is None:
+            if st.orelse or st.finalbody or len(st.handlers) != 1 or not (isinstance(st.handlers[0].type, ast.Name)
+                                                                          and st.handlers[0].type.id == "TimeoutException"):
+                raise ExtractError("load_subs: try statement in the row loop is not `try: ... except TimeoutException: ...` (line %d)" % st.lineno)
+            handler = st.handlers[0]
+            todo = list(st.body)
+            continue
+        if isinstance(st, ast.With) and inner is None and not todo and time_limited is None:
+            it = st.items
+            if len(it) != 1 or it[0].optional_vars is not None or not isinstance(it[0].context_expr, ast.Call) \
+                    or N.call_name(it[0].context_expr) != "time_limit" or len(it[0].context_expr.args) != 1 or it[0].context_expr.keywords:
+                raise ExtractError("load_subs: with statement in the row loop is not `with time_limit(<seconds>):` (line %d)" % st.lineno)
+            time_limited = st.lineno
+            todo = list(st.body)
             continue
         if isinstance(st, ast.If) and not st.orelse and guard_ok(st.test) and not todo and inner is None:
             todo = list(st.body)
@@ -659,6 +704,58 @@ def _load_subs(tree):
     ce = _CellEval(lambda e: isinstance(e, ast.Subscript) and N.u(e) in cellrefs, ib.get("MV_cell"), "use_sympy", locs)
     ce.run(inner.body)
     c = ce.cell
+    # ---- exception structure of the per-row conversion ------------------------------------------------------------
+    # in-place statement sequence: every write to the cell, in source order
+    inplace, nrep, kinds = [], 0, []
+    for kind, n, ln in ce.writes:
+        if kind == "str":
+            if kinds:
+                raise ExtractError("load_subs: a text write to the cell after its conversion (line %d)" % ln)
+            inplace.append((".replace %d" % (n - nrep), ln)); nrep = n
+        else:
+            kinds.append((kind, ln))
+    ks = sorted(k for k, _ in kinds)
+    if ks == ["dictzip", "nan", "strof"]:
+        conv = [(".convert", min(ln for k, ln in kinds if k != "strof")), (".stringify", [ln for k, ln in kinds if k == "strof"][0])]
+    elif ks in (["condstr", "nan"], ["nan", "nancase"], ["nancase"]):
+        conv = [(".convert", min(ln for k, ln in kinds))]
+    else:
+        raise ExtractError("load_subs: in-place writes of the converted cell not recognised: %r" % (ks,))
+    inplace += conv
+    restores = ("none", None)
+    for nm, (kd, ln) in saves.items():
+        if kd == "snapshot" and nm in N.names_stored(inner):
+            raise ExtractError("load_subs: the saved copy %s (line %d) is written inside the per-cell loop" % (nm, ln))
+    if handler is not None:
+        found = None
+        for st in handler.body:
+            if isinstance(st, ast.Expr) and isinstance(st.value, ast.Call) and N.call_name(st.value) == "print":
+                continue
+            if isinstance(st, ast.Pass) or (isinstance(st, ast.Continue) and st is handler.body[-1]):
+                continue
+            ok = False
+            if isinstance(st, ast.Assign) and len(st.targets) == 1 and found is None:
+                t = st.targets[0]
+                rebinding = "MV_i2" in ob and N.u(t) == "%s[%s]" % (B, ob["MV_i2"])
+                slicecopy = isinstance(t, ast.Subscript) and N.u(t.slice) == ":" and is_row(t.value)
+                v = st.value
+                for src in ("list(MX_r)", "MX_r[:]", "MX_r.copy()", "copy.copy(MX_r)", "copy.deepcopy(MX_r)"):
+                    bb = N.unify(src, v)
+                    if bb is not None and isinstance(bb["MX_r"][1], ast.Name):
+                        v = bb["MX_r"][1]               # a copy of an alias is as mixed as the alias
+                if (rebinding or slicecopy) and isinstance(v, ast.Name) and v.id in saves:
+                    found = (saves[v.id][0], "%s = %s at line %d; %s bound at line %d" % (N.u(t), N.u(st.value), st.lineno, v.id, saves[v.id][1]))
+                    ok = True
+                elif (rebinding or slicecopy) and is_row(v):
+                    found = ("alias", "%s = %s at line %d" % (N.u(t), N.u(st.value), st.lineno))
+                    ok = True
+            if not ok:
+                raise ExtractError("load_subs: statement of the TimeoutException handler not recognised (line %d): %s" % (st.lineno, N.u(st).splitlines()[0]))
+        if found is None:
+            raise ExtractError("load_subs: the TimeoutException handler (line %d) does not put the row back" % handler.lineno)
+        restores = found
+    rowconv = dict(time_limited=time_limited, restores=restores, inplace=inplace,
+                   handler_line=None if handler is None else handler.lineno, saves=saves, extra_params=[x.arg for x in extra])
     if c[0] != "nancase":
         raise ExtractError("load_subs: replace sequence / nan test not found")
     ops, nan_lit, val = c[1], c[2], c[3]
@@ -668,7 +765,7 @@ def _load_subs(tree):
                            "same quoted text, followed by the use_sympy switch")
     if not ops:
         raise ExtractError("load_subs: replace sequence / nan test not found")
-    return list(ops), nan_lit, block, (fn0.lineno, fn0.end_lineno)
+    return list(ops), nan_lit, block, (fn0.lineno, fn0.end_lineno), rowconv
 
 
 # ------------------------------------------------------------------------------------------------
@@ -750,7 +847,7 @@ def gen(stage):
     tree = extract._parse(stage, SIMP)
     dtree = extract._parse(stage, DUPC)
     stmts, srcs, comb_src, comb_order, span1 = _get_all_dup(tree)
-    seq, nan_lit, block, span2 = _load_subs(tree)
+    seq, nan_lit, block, span2, rowconv = _load_subs(tree)
     tmpl, kinds, span3 = _templates(tree)
     rd = [d for d, ln in _csv_delims(extract.find_def(tree, "load_subs"), SIMP, "reader", _str_consts(tree))]
     wr = _csv_delims(tree, SIMP, "writer", _str_consts(tree)) + _csv_delims(dtree, DUPC, "writer", _str_consts(dtree))
@@ -774,6 +871,22 @@ def gen(stage):
     t += "-- load_subs: %s\n" % "; ".join("line %d .replace(%r, %r)" % (ln, a, b) for a, b, ln in seq)
     t += "def replaceSeq : List (List Char × List Char) :=\n  %s\n\n" % llist(["(%s, %s)" % (lchars(a), lchars(b)) for a, b, ln in seq])
     t += "def nanLiteral : List Char := %s\n\n" % lchars(nan_lit)
+    t += "/-- what the TimeoutException handler of load_subs' per-row conversion puts the row back from -/\n"
+    t += "inductive Restore\n  | none      -- no handler around the conversion\n  | snapshot  -- a copy of the row taken before the first in-place write\n"
+    t += "  | alias     -- another name of the very list the loop rewrites in place\n  deriving DecidableEq, Repr\n\n"
+    t += "/-- one in-place write `row[j] = …` of the per-cell statements -/\n"
+    t += "inductive RowStmt\n  | replace (n : Nat)   -- the next n `.replace` calls of `replaceSeq` applied to the cell text\n"
+    t += "  | convert             -- np.nan / dict(zip(sympified keys, sympified values))\n"
+    t += "  | stringify           -- `if not use_sympy: row[j] = str(row[j])`\n  deriving DecidableEq, Repr\n\n"
+    t += "structure RowConversion where\n  timeLimited : Bool\n  restoresFrom : Restore\n  inPlace : List RowStmt\n  deriving DecidableEq, Repr\n\n"
+    t += "-- load_subs per-row conversion: %s; %s\n" % (
+        ("`with time_limit(..)` at line %d" % rowconv["time_limited"]) if rowconv["time_limited"] else "no time-limited region",
+        ("`except TimeoutException` at line %d restores the row from %s (%s)" % (rowconv["handler_line"], rowconv["restores"][0], rowconv["restores"][1]))
+        if rowconv["handler_line"] else "no TimeoutException handler")
+    t += "-- in-place writes at lines %s%s\n" % (", ".join(str(ln) for _, ln in rowconv["inplace"]),
+                                                ("; extra parameters: " + ", ".join(rowconv["extra_params"])) if rowconv["extra_params"] else "")
+    t += "def loadSubsRows : RowConversion :=\n  ⟨%s, .%s, %s⟩\n\n" % (
+        "true" if rowconv["time_limited"] else "false", rowconv["restores"][0], llist([k for k, _ in rowconv["inplace"]]))
     t += "-- line %d: all_subs[r] = %s\n" % (block[2], block[1])
     t += "def sliceLo : Nat := %d\ndef sliceHi : Nat := %d\n\n" % block[0]
     t += "def readerDelimiter : Char := %s\n" % lchars(rd[0])[1:-1]
